@@ -702,6 +702,32 @@ def c12_extra(R, tier, seed):
     return 0
 
 
+def c08_extra(R, tier, seed):
+    """C08 on machines of every size (the zoo stops at 64 states): scripted scenarios per origin id, destinations drawn from the seed"""
+    od = vc.out_dir("C08")
+    plan = sizes_plan(tier, seed)
+    ok, bins, log, out = sizes_binaries(plan)
+    if not ok:
+        print("INCONCLUSIVE: sizes harness does not build:", log)
+        print(out[-2500:])
+        return 2
+    outs = vc.parallel([[bins[p], "plans", str(seed * 97 + 3)] for p in plan])
+    scen = 0
+    for p, (rc, out) in zip(plan, outs):
+        if rc != 0:
+            lp = os.path.join(od, "plans-%d-%d-%s.log" % p)
+            open(lp, "w").write(out)
+            R.violation(lp, "plan scenarios N=%d mode=%d[+1 head,+2 automatic] (%s header): %s  [replay: %s plans %d]" % (p[0], p[1], p[2], out.strip()[:400], bins[p], seed * 97 + 3))
+        else:
+            for l in out.splitlines():
+                if l.startswith("plans ok"):
+                    scen += int(l.split("scenarios=")[1].split()[0])
+    R.coverage["evaluations"] += scen
+    R.coverage["engines"]["sizes_plan_scenarios"] = {"machines": len(plan), "state_counts": sorted(set(p[0] for p in plan)), "scenarios": scen,
+                                                      "what": "per origin id (all ids of every machine): a report is consumed by the task it fires even if the fired transition is vetoed; reports of other states survive"}
+    return 0
+
+
 def setup_extra():
     ok = True
     for variant in ("shipped", "dev"):
